@@ -22,6 +22,7 @@ Definition c_tr (c prev : candle) : F := c_tr_close c (c_close prev).
 Definition c_volumed_price (c : candle) : F := fmul (c_tp c) (c_volume c).
 Definition c_validate (c : candle) : bool :=
   negb (fgt (c_close c) (c_high c) || flt (c_close c) (c_low c) || flt (c_high c) (c_low c))
+  && negb (fgt (c_open c) (c_high c) || flt (c_open c) (c_low c))
   && fgt (c_close c) f0 && fgt (c_open c) f0 && fgt (c_high c) f0 && fgt (c_low c) f0
   && fis_finite (c_close c) && fis_finite (c_open c) && fis_finite (c_high c) && fis_finite (c_low c)
   && (fis_nan (c_volume c) || fge (c_volume c) f0).
